@@ -552,3 +552,66 @@ async def cancelled_tasks_are_still_awaited_at_exit(a: bool, b: bool, c: bool):
     await tm.gather()
     ensures("exit-cancels-every-task", tasks_cancelled(""))
     ensures("exit-awaits-every-task-including-already-cancelled-ones", Gathered.tasks == before)
+
+
+# ---------------------------------------- facade teardown silences every automation object
+from geckolib.driver.observable import Observable
+
+
+class ClientObserver:
+    def __init__(self):
+        self.calls = 0
+
+    def __call__(self, *args):
+        self.calls += 1
+
+
+class Dev(Observable):
+    def __init__(self, key):
+        Observable.__init__(self)
+        self.key = key
+
+
+@harness(prop="C10", target="geckolib.automation.async_facade:GeckoAsyncFacade.disconnect",
+         bounded="device lists of 0..2 pumps / blowers / lights / sensors / binary sensors (concrete Python lists)")
+async def facade_teardown_leaves_no_observer_on_any_device(np: int, nb: int, nl: int, ns: int, nbs: int):
+    """after the teardown no automation object of the abandoned facade can call back into the client -- whoever
+    registered the observer (the facade itself or the client application)"""
+    requires(both(0 <= np, np <= 2, 0 <= nb, nb <= 1, 0 <= nl, nl <= 1, 0 <= ns, ns <= 2, 0 <= nbs, nbs <= 2))
+    np = concrete_cases(np, 0, 2)
+    nb = concrete_cases(nb, 0, 1)
+    nl = concrete_cases(nl, 0, 1)
+    ns = concrete_cases(ns, 0, 2)
+    nbs = concrete_cases(nbs, 0, 2)
+    arm(-1)
+    tm = AsyncTasks()
+    tm.add_task(None, "Facade update", "FACADE")
+    tm.add_task(None, "Ping loop", "SPA")
+    f = new(GeckoAsyncFacade)
+    f._observers = []
+    f._taskman = tm
+    f._pumps = [Dev("P%d" % i) for i in range(np)]
+    f._blowers = [Dev("BL")] * nb
+    f._lights = [Dev("LI")] * nl
+    f._sensors = [Dev("S%d" % i) for i in range(ns)]
+    f._binary_sensors = [Dev("B%d" % i) for i in range(nbs)]
+    f._water_heater = Dev("HEATER")
+    f._water_care = Dev("WATERCARE")
+    f._reminders_manager = Dev("REMINDERS")
+    f._keypad = Dev("KEYPAD")
+    f._ecomode = Dev("ECON")
+    client = ClientObserver()
+    devices = list(f.all_automation_devices)
+    for d in devices:
+        d.watch(f._on_change)                       # what the constructor installs
+        d.watch(client)                             # what a client application installs
+    for d in f.all_config_change_devices:
+        d.watch(f._on_config_device_change)
+    await f.disconnect()
+    for d in devices:
+        ensures("no-observer-left-on-any-automation-object", not d.has_observers)
+    for d in devices:
+        d._on_change(d, 1, 2)                       # a late datagram of the abandoned connection changes a value
+    ensures("late-change-reaches-no-client-observer", client.calls == 0)
+    ensures("facade-tasks-cancelled-and-only-those", both(tasks_cancelled("FACADE:"), not Net.tasks[1].cancelled))
+    cover("several-devices", len(devices) > 8)
